@@ -215,16 +215,38 @@ def setScalarValue (s : Scalars) (name : String) (v : ValueAggregate) : ER Scala
   let (_, m) ← s.nonIterable.setValue name v
   pure { s with nonIterable := m }
 
-def variableCouldBeSet (s : Scalars) (name : String) : Bool := s.nonIterable.variableCouldBeSet name
+def variableCouldBeSet (s : Scalars) (name : String) : Bool :=
+  s.nonIterable.variableCouldBeSet name || s.canonStreams.variableCouldBeSet name
 
-def meetFoldStart (s : Scalars) : Scalars := { s with nonIterable := s.nonIterable.meetFoldStart }
-def meetNextBefore (s : Scalars) : Scalars := { s with nonIterable := s.nonIterable.meetNextBefore }
-def meetNextAfter (s : Scalars) : ER Scalars := do pure { s with nonIterable := ← s.nonIterable.meetNextAfter }
-def meetFoldEnd (s : Scalars) : ER Scalars := do pure { s with nonIterable := ← s.nonIterable.meetFoldEnd }
+def meetFoldStart (s : Scalars) : Scalars :=
+  { s with nonIterable := s.nonIterable.meetFoldStart, canonStreams := s.canonStreams.meetFoldStart }
+def meetNextBefore (s : Scalars) : Scalars :=
+  { s with nonIterable := s.nonIterable.meetNextBefore, canonStreams := s.canonStreams.meetNextBefore }
+def meetNextAfter (s : Scalars) : ER Scalars := do
+  pure { s with nonIterable := ← s.nonIterable.meetNextAfter, canonStreams := ← s.canonStreams.meetNextAfter }
+def meetFoldEnd (s : Scalars) : ER Scalars := do
+  pure { s with nonIterable := ← s.nonIterable.meetFoldEnd, canonStreams := ← s.canonStreams.meetFoldEnd }
 def meetNewStartScalar (s : Scalars) (n : String) : Scalars := { s with nonIterable := s.nonIterable.meetNewStart n }
 def meetNewEndScalar (s : Scalars) (n : String) : Scalars × Bool :=
   let (m, ok) := s.nonIterable.meetNewEnd n
   ({ s with nonIterable := m }, ok)
+def meetNewStartCanon (s : Scalars) (n : String) : Scalars := { s with canonStreams := s.canonStreams.meetNewStart n }
+def meetNewEndCanon (s : Scalars) (n : String) : Scalars × Bool :=
+  let (m, ok) := s.canonStreams.meetNewEnd n
+  ({ s with canonStreams := m }, ok)
+
+/-- `get_canon_stream` -/
+def getCanonStream (s : Scalars) (name : String) : ER CanonStreamWP :=
+  match s.canonStreams.getValue name with
+  | .ok (some v) => .ok v
+  | .ok none => catchable (.variableWasNotInitializedAfterNew name)
+  | .error e => .error e
+  | .panic p => .panic p
+
+/-- `set_canon_value` -/
+def setCanonValue (s : Scalars) (name : String) (v : CanonStreamWP) : ER Scalars := do
+  let (_, m) ← s.canonStreams.setValue name v
+  pure { s with canonStreams := m }
 
 end Scalars
 
